@@ -16,12 +16,16 @@ CUR = ["A(0) A(1) S(0,1) Z", "A(0) A(1) S(0,0) T(0,1) T(1,1) Z", "A(0) S(0,0) S(
        "A(0) A(1) S(0,0) C(0) S(1,0) T(1,1) Z", "A(0) S(0,0) T(0,0) Z", "A(0) R(0,1) Z", "A(0) A(1) W(1) S(0,0) T(0,1) R(0,1) Z"]
 RAWCUR = ["A(0) A(1) SR(0,0,0) Z", "A(0) A(1) SR(0,0,1) T(0,1) Z", "A(0) A(1) SR(0,1,-1) Z", "A(0) W(0) R(0,0) Z", "A(0) A(1) W(0) R(0,0) SR(1,0,0) Z",
           "A(0) SR(0,0,0) SR(1,0,0) Z"]
+# one slow peer (its one-slot queue is full) must not deprive the other peers: blocking sends (the non-blocking form is open finding F6b)
+SB1 = ["A(0) A(1) S(0,1) S(1,1) T(1,1) S(2,1) Z", "A(0) A(1) S(0,1) S(1,1) T(0,1) S(2,1) Z", "A(0) A(1) S(0,1) S(1,1) S(2,1) T(1,1) T(1,1) S(3,1) Z",
+       "A(0) S(0,1) S(1,1) A(1) S(2,1) T(1,1) S(3,1) Z", "A(0) A(1) S(0,1) S(1,1) T(1,1) T(1,1) S(2,1) T(1,1) Z"]
 ALPHA = ["A(0)", "A(1)", "S(%d,0)", "S(%d,1)", "T(0,1)", "T(1,1)", "T(0,0)", "W(0)", "W(1)", "R(%d,0)", "R(%d,1)", "C(0)"]
 
 
 def queries(tier):
     qs = []
-    words = [(w, {}) for w in CUR] + [(w, {"SENDBUF": 1}) for w in CUR[:5]] + [(w, {"RAW": 1}) for w in RAWCUR]
+    words = [(w, {}) for w in CUR] + [(w, {"SENDBUF": 1}) for w in CUR[:5]] + [(w, {"RAW": 1}) for w in RAWCUR] + [(w, {"SENDBUF": 1}) for w in SB1] \
+        + [(w.replace("S(0,1)", "SR(0,1,-1)").replace("S(1,1)", "SR(1,1,-1)").replace("S(2,1)", "SR(2,1,-1)").replace("S(3,1)", "SR(3,1,-1)"), {"SENDBUF": 1, "RAW": 1}) for w in SB1[:2]]
     words += [(w, {}) for w in skel.enumerate_words(ALPHA, 3 if tier == "quick" else 4, first=["A(0)", "S(%d,0)", "R(%d,1)"],
                                                     limit=120 if tier == "quick" else 3000)]
     seen = set()
